@@ -183,6 +183,7 @@ func tagScanTable(c *core.Ctx) (rs rows, runs int, fn *ssa.Function, undecided s
 							build := func() (absint.Oracle, []absint.Value, []absint.Value) {
 								created, setArgs, handlerAsked, registered, regKey = nil, nil, nil, nil, nil
 								t := newTbl(c)
+								stringModels(t)
 								d := absint.NewTok("scanner", "scanner")
 								d.Fields["Tag"], d.Fields["Required"], d.Fields["NodeType"] = absint.Str(ownTag), absint.Bool(required), absint.Str("Component")
 								handler := absint.NewTok("handler", "func")
@@ -215,7 +216,7 @@ func tagScanTable(c *core.Ctx) (rs rows, runs int, fn *ssa.Function, undecided s
 										panic(&absint.Undecided{Msg: "tag lookup with a key other than the processor's tag"})
 									}
 									if s == 0 || s == 4 {
-										return absint.Tuple{absint.Str("val:" + tg.ID), absint.Bool(true)}
+										return absint.Tuple{absint.Str(" val:" + tg.ID + " ,a=1 "), absint.Bool(true)}
 									}
 									return absint.Tuple{absint.Str(""), absint.Bool(false)}
 								}
@@ -227,9 +228,9 @@ func tagScanTable(c *core.Ctx) (rs rows, runs int, fn *ssa.Function, undecided s
 									handlerAsked = append(handlerAsked, f.ID)
 									switch int(f.Attr["sit"].(absint.Int)) {
 									case 1, 4:
-										return absint.Tuple{absint.Str(""), absint.Str("hval:" + f.ID), absint.Bool(true)}, true
+										return absint.Tuple{absint.Str(""), absint.Str(" hval:" + f.ID + " ,b= "), absint.Bool(true)}, true
 									case 2:
-										return absint.Tuple{absint.Str("htag"), absint.Str("hval:" + f.ID), absint.Bool(true)}, true
+										return absint.Tuple{absint.Str("htag"), absint.Str(" hval:" + f.ID + " ,b= "), absint.Bool(true)}, true
 									}
 									return absint.Tuple{absint.Str(""), absint.Str(""), absint.Bool(false)}, true
 								}
@@ -276,7 +277,7 @@ func tagScanTable(c *core.Ctx) (rs rows, runs int, fn *ssa.Function, undecided s
 									switch {
 									case own:
 										rs.hit("own-tag")
-										want = append(want, fmt.Sprintf("P(%s,\"Component\",%q,\"val:%s.Tag\")", f, ownTag, f))
+										want = append(want, fmt.Sprintf("P(%s,\"Component\",%q,\" val:%s.Tag ,a=1 \")", f, ownTag, f))
 									case hasHandler && (s == 1 || s == 4 || s == 2):
 										rs.hit("handler")
 										wantAsked = append(wantAsked, f)
@@ -284,7 +285,7 @@ func tagScanTable(c *core.Ctx) (rs rows, runs int, fn *ssa.Function, undecided s
 										if s == 2 {
 											tg = "htag"
 										}
-										want = append(want, fmt.Sprintf("P(%s,\"Component\",%q,\"hval:%s\")", f, tg, f))
+										want = append(want, fmt.Sprintf("P(%s,\"Component\",%q,\" hval:%s ,b= \")", f, tg, f))
 									default:
 										rs.hit("nothing")
 										if hasHandler {
